@@ -216,7 +216,7 @@ static int apply(ezc3d::c3d*& c, unsigned op) {
 }
 
 static ezc3d::c3d* start_state(int s) {
-  if (s == 3) return new ezc3d::c3d("in.c3d");
+  if (s == 3 || s == 4) return new ezc3d::c3d("in.c3d");
   ezc3d::c3d* c = new ezc3d::c3d();
   if (s >= 1) {
     set_rate(*c, "POINT", 100.f); set_rate(*c, "ANALOG", 200.f);
